@@ -73,3 +73,14 @@ Print Assumptions C03_convert_safe_inert_xhtml.
 (* non-vacuity: the pipeline returns a result on a document with raw HTML, an entity and a link *)
 Example C03_convert_demo : exists o, ConvertModelC demo_cfg [60;98;62;32;38;97;109;112;59;32;91;120;93;40;47;117;41;10] = Ok o.
 Proof. eexists. vm_compute. reflexivity. Qed.
+
+(* ---------------- Part 4: attribute blocks ----------------
+   Every attribute name parser.ParseAttributes yields (model/Attr.v, compared with the public
+   function on every run, case kind ParseAttrs) is a name of the safe grammar that
+   C03_render_attributes_out asks for, at every nesting level. *)
+Require Import GM.model.Attr GM.proofs.AttrProofs.
+Theorem C03_parsed_attribute_names_safe : forall space_table punct_table fuel r r' attrs,
+  parse_attributes space_table punct_table fuel r = Ok (r', Some attrs) ->
+  Forall (fun a => attr_name_ok (fst a) = true /\ pval_names_ok (snd a)) attrs.
+Proof. exact parse_attributes_names_ok. Qed.
+Print Assumptions C03_parsed_attribute_names_safe.
